@@ -243,6 +243,10 @@ fn alloc_aligned_custom_u8(size: usize, align: usize) -> Vec<u8> {
         0,
         "size={size} must be a multiple of align={align}"
     );
+    // The global allocator must not be asked for a zero-size block.
+    if size == 0 {
+        return Vec::new();
+    }
     unsafe {
         let layout: std::alloc::Layout = std::alloc::Layout::from_size_align(size, align).expect("Invalid alignment");
         let ptr: *mut u8 = std::alloc::alloc(layout);
@@ -279,6 +283,10 @@ pub fn alloc_aligned_custom<T>(size: usize, align: usize) -> Vec<T> {
         "size*size_of::<T>()={} must be a multiple of align={align}",
         size * size_of::<T>(),
     );
+
+    if size == 0 {
+        return Vec::new();
+    }
 
     let mut vec_u8: Vec<u8> = alloc_aligned_custom_u8(size_of::<T>() * size, align);
     let ptr: *mut T = vec_u8.as_mut_ptr() as *mut T;
